@@ -240,6 +240,7 @@ def vertex_cache(ctx):
 
 
 def run(ctx):
+    _ownership(ctx)
     _wiring(ctx)
     conversions(ctx)
     ltwh_constructors(ctx)
@@ -300,3 +301,10 @@ def _wiring(ctx):
     import wiring
     ctx.rule('R19.3', 'configuration plumbing: same-named fields / parameters / setters / call arguments are not crossed')
     ctx.floor('R19.3', wiring.run(ctx, 'R19.3', {'xc', 'yc', 'angle', 'aspect', 'height', 'confidence', 'left', 'top', 'width'}), 70)
+
+
+def _ownership(ctx):
+    """who-may-write rows of rules/ownership.py that concern this property"""
+    import ownership
+    ctx.rule('R19.6', 'who-may-write: state this property depends on is changed only by its owners (rules/ownership.py)')
+    ctx.floor('R19.6', ownership.run(ctx, 'R19.6', 'C19'), 2)
